@@ -49,7 +49,7 @@ def build_batch(run, seed, p):
         bad = set()
         for f, msgs in errs.items():
             base = os.path.basename(f or "")
-            if base[:1] in ("m", "g") and base.endswith(".rs") and base[1:-3].isdigit():
+            if base[:1] in ("m", "g", "h") and base.endswith(".rs") and base[1:-3].isdigit():
                 bad.add(base[:-3])
                 rejected[base[:-3]] = msgs[:2]
             else:
